@@ -2,6 +2,7 @@ package main
 
 import (
 	"fmt"
+	"math/big"
 
 	"verif/harness/internal/hx"
 	"verif/harness/internal/prng"
@@ -45,6 +46,10 @@ func generate(r *prng.R, o *hx.Out) *scenario {
 	if sc.drift {
 		o.Count("case:drift")
 	}
+	sc.malformed = r.Chance(1, 25)
+	if sc.malformed {
+		o.Count("case:malformed")
+	}
 	ntx := r.Range(3, 12)
 	nSenders := r.Range(1, 3)
 	notaryShare := []int{0, 2, 5, 8}[r.Intn(4)] // out of 10
@@ -79,6 +84,9 @@ func generate(r *prng.R, o *hx.Out) *scenario {
 		if r.Chance(1, 20) {
 			d.conflicts = append(d.conflicts, unknownBase+r.Intn(3))
 		}
+		if sc.malformed && len(d.conflicts) > 0 && r.Chance(1, 2) {
+			d.conflicts = append(d.conflicts, d.conflicts[r.Intn(len(d.conflicts))])
+		}
 		d.size = sizeChoices[r.Intn(len(sizeChoices))]
 		lvl := fpbLevels[r.Intn(len(fpbLevels))]
 		switch r.Intn(4) {
@@ -96,6 +104,24 @@ func generate(r *prng.R, o *hx.Out) *scenario {
 	}
 	// balances near the sums of fees: exact subset sums, one short, generous, or poor
 	setBalances(r, sc, sc.bals)
+	if r.Chance(1, 30) {
+		// balances beyond 64 bits: multiples of 2^256 are truncated by SetFromBig, 2^255 and 2^256-1000 are not
+		o.Count("case:huge-balance")
+		sc.off = map[payerKey]*big.Int{}
+		two256 := new(big.Int).Lsh(big.NewInt(1), 256)
+		for _, pk := range sortedKeys(sc.bals) {
+			switch r.Intn(5) {
+			case 0:
+				sc.off[pk] = new(big.Int).Set(two256)
+			case 1:
+				sc.off[pk] = new(big.Int).Mul(two256, big.NewInt(int64(r.Range(2, 9))))
+			case 2:
+				sc.off[pk] = new(big.Int).Lsh(big.NewInt(1), 255)
+			case 3:
+				sc.off[pk] = new(big.Int).Sub(two256, big.NewInt(1000))
+			}
+		}
+	}
 	// operations
 	nops := r.Range(8, 40)
 	pooledGuess := map[int]bool{}
